@@ -24,6 +24,42 @@ CLAIMED = {
         note="As C03. Which of several missing names the error message mentions depends on map order; only the error "
              "class is compared.",
         ref="DESIGN.md §6 C04"),
+    "C05": dict(
+        technique="Coq proof (freshness checker sound w.r.t. a heap semantics of an effect IR) applied to every function lowered from the regenerated Go AST + fork-history harness",
+        text="C05_safe_sound: a function body accepted by the freshness checker, run in any heap/environment, with loops running "
+             "any number of times and append taking either the in-place or the reallocating branch, leaves every object that "
+             "existed at entry unchanged (except the render-local SQLBuilder's). C05_current_tree: all 418 functions and "
+             "value-receiver methods of the root, builder and fn packages - re-read from /repo on every run and lowered by "
+             "Meta/Lower.v - are accepted; cloneSlice has exactly the copying body; pointer receivers exist only on the render "
+             "handle, the SQL builder, the JSON batch builder (Start clones, End copies) and the slice map's in-place setter. "
+             "Harness: history trees in which any live value is continued repeatedly after any number of earlier continuations "
+             "(forks), every live value re-rendered after every call.",
+        note="Trusted: the lowering from the Go AST to the IR (the reading of Go's slice/append/value-copy semantics; "
+             "conservative: unknown constructs are rejected) and that rendering depends only on memory reachable from the "
+             "value. *QueryBuilder is the render handle, not a builder value. Defects D1/D2 were repaired (fix: commits).",
+        ref="DESIGN.md §6 C05"),
+    "C10": dict(
+        technique="Coq proof (model is a function; map-order independence of the fill loop) + generated-facts obligations (no global writes, SQLBuilder local) + repetition harness",
+        text="C10_map_order: for every value the named-argument fill loop gives the same result under every iteration order of "
+             "the Go map; C10_no_hidden_state: on the current tree no function writes or takes the address of a package-level "
+             "variable, the SQLBuilder is allocated at the start of writeToSQLString and never stored, and no value function "
+             "writes an object that existed before it was called - so nothing survives a rendering. SetMap's key sort is covered "
+             "by the byte-exact correspondence. Harness: every value rendered 20/200 times interleaved with renderings of "
+             "other values, from one and from 16 goroutines, SetMap with up to 64 keys.",
+        note="Partial: goroutine schedules are exercised, not enumerated. Which of several missing names an error mentions depends "
+             "on map order (error class compared).",
+        ref="DESIGN.md §6 C10"),
+    "C11": dict(
+        technique="Coq proof (ownership discipline => no conflicting accesses under any interleaving) with premises from the effect analysis + race-detector harness",
+        text="C11_no_conflicting_accesses: if every operation writes only objects it allocated itself and otherwise touches only "
+             "objects that existed before all operations started, then in any interleaving two accesses of different "
+             "operations to one object are both reads (no data race, no operation observes another's writes). "
+             "C11_premises_current_tree: the premises hold for every value function (C05), the SQLBuilder is render-local, no "
+             "package-level variable is written. Harness built with -race: 16 goroutines derive from and render shared values "
+             "following plans computed sequentially; results compared with the sequential ones.",
+        note="Partial: the Go memory model and the scheduler are not modelled; the race detector sees the schedules that "
+             "happen; regexp.Regexp's documented safety for concurrent use is trusted.",
+        ref="DESIGN.md §6 C11"),
     "C06": dict(
         technique="Coq proof about the PostgreSQL lexer (streaming transducer) and pqQuoteLiteral / Itoa + exhaustive literal-context harness",
         text="C06_string: for every byte string without NUL, both standard_conforming_strings settings, every lexer state not "
